@@ -42,4 +42,9 @@ PROPS = {
             "level_text": "Octet codecs: identity and bit positions for all 256 values by kernel evaluation, positions stated arithmetically (and equal to the independent Spec encoders). Time: format->parse and parse->format are Lean theorems for EVERY valid civil date of 2000-2099 x every tenth x every quarter-hour offset within +-12h, resting on an exhaustive kernel check of the day-number calendar over all 36525 days; duration round trip for every period 1 s .. <100 y at 0.1 s resolution by mixed-radix arithmetic (omega).",
             "level_note": "Model of pdu/time.go, interface_version.go, esm_class.go, registered_delivery.go; the literal ingredients (format strings, argument order, multipliers, slices, bit statements) are regenerated and compared by decide. Trusted and validated differentially: that Go's time.Date + accessors equal GoDate.norm (also on out-of-calendar input), strconv.ParseInt and fmt %02d/%d models, encoding/json quoting.",
             "exhaustive_note": "256 x 3 octet cases enumerated completely"},
+    "C08": {"rule": "gsm7repertoire: EXHAUSTIVE sweep of all 1,112,064 scalar values through the real encoder, Validate and BestCoding (one op; both accepted sets compared with the model's); gsm7rt: every single character, pairs (all 18769 in thorough), random texts up to 170 chars with 15% extension characters and every ending in {CR, '@', CR CR, ext+CR, ...}, exact lengths 0..24 x endings (all residues mod 8), one foreign character at a random place; gsm7dec: arbitrary octets; gsm7bytes: arbitrary (invalid UTF-8) input (oracle only)",
+            "impl_only_ops": ("gsm7bytes",),
+            "level_text": "Alphabet and detector are decided for EVERY scalar value (general membership lemma + kernel-evaluated finite tables compared with an independent GSM 03.38 transcription); length, LSB-first bit positions, filler rule and unpack(pack s) are theorems for all septet lists; the round trip (with the single-trailing-CR exception exactly in the ambiguous case) is a theorem for all texts.",
+            "level_note": "Model of coding/gsm7bit over the REGENERATED tables (reverseLookup, forwardEscapes, DefaultAlphabet) and regenerated statement texts of init / packSeptets / unpackSeptets / the strip rule. Trusted and validated differentially: the model's bit-stream formulation equals the Go loops; golang.org/x/text's transform.Bytes driver (grow/retry) is transparent; range-over-string yields scalars (U+FFFD for invalid input).",
+            "exhaustive_note": "all scalar values enumerated through the implementation"},
 }
